@@ -1040,3 +1040,7 @@ DESIGN_REF = "DESIGN.md section 4 (C11)"
 BOUNDS = dict(BOUNDS, m8="record_entry_descendants: one output, reader / consumer presence symbolic", m9_m10="one step from the three-entry state G -> P -> C (entry table modelled by three symbolic entries, link closure as environment); all sizes/cycles/fees below 2^32")
 LEVEL_TEXT = LEVEL_TEXT + " m8: links recorded for a new entry (dep readers AND consumer become children, parents/children sets, which propagation runs). m9/m10: one-step aggregate consistency of add_entry with already pooled descendants and of remove_entry_and_descendants, executing the real update_*_index_key / add_*/sub_*_weight code over a three-entry model (m9: known finding; m10: defect repaired)."
 LEVEL_NOTE = "Partial claim (entry-level kernels, link recording, two one-step aggregate scenarios). The multi-index container, edges/links maps themselves, RBF candidate sets and eviction over the whole pool: outside."
+
+# ---- extended claim (session 4)
+LEVEL_TEXT = LEVEL_TEXT + " m13: the link map's descendant closure equals reachability over recorded links for every graph over symbolic ids (<= 3 transactions, <= 3 links, cycles included)."
+LEVEL_NOTE = LEVEL_NOTE + ' Link closure: bounded number of links, containers modelled as association lists with symbolic keys.'
